@@ -9,7 +9,7 @@ Open Scope string_scope.
 Definition env_atten (st ft : Q) (xs : list obs) (cv : list (option Q)) : env :=
   {| e_arr := bind_arr [("inp", xs); ("check_val", cv)];
      e_num := bind_num [("suspect_threshold", Some st); ("fail_threshold", Some ft)];
-     e_str := (fun _ => None);
+     e_str := (fun _ => None); e_bool := (fun _ => None);
      e_size := length xs |}.
 
 Theorem skel_atten_range st ft xs cv :
